@@ -905,6 +905,15 @@ func (env *Env) call(n *ast.CallExpr) TV {
 		}
 		v := env.eval(n.Args[0])
 		return TV{T: eq(cur, sto(old, v.T, sel(cur, v.T))), Ty: boolT}
+	case "gm": // gm("$name", key): ghost map Int -> Int (keys are references)
+		lit, ok := n.Args[0].(*ast.BasicLit)
+		if !ok || len(n.Args) != 2 {
+			return env.fail("gm(\"$name\", key)")
+		}
+		comp := "$gm." + strings.TrimPrefix(strings.Trim(lit.Value, "\""), "$")
+		c.DeclComp(comp, "(Array Int Int)")
+		v := env.eval(n.Args[1])
+		return TV{T: sel(c.Get(env.st, comp), v.T), Ty: ghostIntType}
 	case "own": // ownership state of a File: 0 untracked, 1 owned by this invocation, 2 owned by a reference, 3 closed
 		v := env.eval(n.Args[0])
 		env.e.declOwn()
